@@ -19,7 +19,7 @@
 (* Verdicts are value-level: which projective representation or limb form  *)
 (* the code chose is adopted from the trace, never compared.               *)
 (***************************************************************************)
-EXTENDS Edwards, Curves, Limbs, Json, IOUtils, TLC, FiniteSets
+EXTENDS Edwards, Curves, Limbs, Recode, Json, IOUtils, TLC, FiniteSets
 
 TheTrace == ndJsonDeserialize(IOEnv.VERIF_TRACE)
 
@@ -302,6 +302,35 @@ OpOk(e) ==
          C("C10", "accept.iff", (e.err = 0) <=> acc)
          \cup Setter(e, acc, C("C10", "value", acc => EV(rpost) = FDecodeWide(s)))
          \cup InputUnchanged(e)
+    \* ----- in-package shim (optional): recodings and lookup tables against Recode / ScalarMul, informational only
+    [] e.op = "Shim.Radix16" ->
+         LET k == SV(a(1)) IN
+         Drift("drift.recode.radix16.value", DigitsValueIs(e.digits, 4, k) /\ \A i \in 1..Len(e.digits) : -8 <= e.digits[i] /\ e.digits[i] <= 8)
+         \cup Drift("drift.recode.radix16.range", Radix16Contract(e.digits, k)) \cup Frame(e, {})
+    [] e.op = "Shim.NAF" ->
+         Drift("drift.recode.naf", NafContract(e.digits, SV(a(1)), BNToInt(BNFromBytes(e.n)))) \cup Frame(e, {})
+    [] e.op = "Shim.ProjTable" ->
+         LET q == PA(a(1))
+             ent(j) == [YpX |-> EV(e.elems[4 * j - 3]), YmX |-> EV(e.elems[4 * j - 2]), Z |-> EV(e.elems[4 * j - 1]), T2d |-> EV(e.elems[4 * j])]
+         IN  (IF InputsValid(e) /\ PValid(a(1))
+              THEN Drift("drift.table.proj", Len(e.elems) = 32 /\ \A j \in 1..8 : CachedRepOf(ent(j), EMul(BNOfInt(j), q))) ELSE {})
+             \cup Frame(e, {})
+    [] e.op = "Shim.ProjSelect" ->
+         LET q == PA(a(1))
+             v == BNFromBytes(e.n)
+             neg == BNBit(v, 63) = 1
+             mag == IF neg THEN BNSub(BNPow2(64), v) ELSE v
+             want == IF neg THEN ENeg(EMul(mag, q)) ELSE EMul(mag, q)
+             c == [YpX |-> EV(e.elems[1]), YmX |-> EV(e.elems[2]), Z |-> EV(e.elems[3]), T2d |-> EV(e.elems[4])]
+         IN  (IF PValid(a(1)) THEN Drift("drift.table.select", CachedRepOf(c, want)) ELSE {}) \cup Frame(e, {})
+    [] e.op = "Shim.BaseTable" ->
+         LET n == BNToInt(BNFromBytes(e.n))   i == n \div 8   j == n % 8
+             c == [YpX |-> EV(e.elems[1]), YmX |-> EV(e.elems[2]), T2d |-> EV(e.elems[3])]
+         IN  Drift("drift.table.base", AffCachedRepOf(c, EMul(BNShl(BNOfInt(j + 1), 8 * i), BasePt)))
+    [] e.op = "Shim.BaseNafTable" ->
+         LET j == BNToInt(BNFromBytes(e.n))
+             c == [YpX |-> EV(e.elems[1]), YmX |-> EV(e.elems[2]), T2d |-> EV(e.elems[3])]
+         IN  Drift("drift.table.basenaf", AffCachedRepOf(c, EMul(BNOfInt(2 * j + 1), BasePt)))
     \* driver-only actions: nothing to check, the new contents are adopted
     [] e.op \in {"Buf.Set", "Buf.Scribble", "Elem.Inject"} -> {}
     [] OTHER -> C("INFRA", "unknown.op", FALSE)
@@ -360,7 +389,8 @@ IsInput(e, n) ==     \* is register n read by the call?  (the receiver of a sett
 CallKey(e) == <<e.op, e.n, [i \in 1..Len(Positions(e)) |->
                    LET n == Positions(e)[i] IN IF n = "" \/ ~IsInput(e, n) THEN <<>> ELSE AbsObj(n, e.pre[n])]>>
 \* only library calls that completed normally are memoised; keys are per program
-Memoisable(e) == e.op \notin {"Buf.Set", "Buf.Scribble", "Elem.Inject"} /\ e.panic = 0
+Memoisable(e) == e.op \notin {"Buf.Set", "Buf.Scribble", "Elem.Inject", "Shim.Radix16", "Shim.NAF", "Shim.ProjTable", "Shim.ProjSelect",
+                              "Shim.BaseTable", "Shim.BaseNafTable"} /\ e.panic = 0
 \* the result is compared up to the names of the written registers
 ResShape(e) == <<e.err, e.panic, e.out,
                  \* (a failed setter leaves the receiver as it was: its contents are then not a result of the call)
